@@ -21,6 +21,12 @@ Theorem C09_discipline : discipline accesses.
 Proof. apply discipline_b_sound. vm_compute. reflexivity. Qed.
 Print Assumptions C09_discipline.
 
+(* no analysed path returns from the function that took a lock while still holding it without a deferred release (a lock
+   left held makes every later critical section wait for ever): the translator lists such locks, the list is empty *)
+Theorem C09_no_lock_left_held : leaked_locks = [].
+Proof. reflexivity. Qed.
+Print Assumptions C09_no_lock_left_held.
+
 (* the translated oxy program has no data race, in any interleaving of any number of goroutines *)
 Theorem C09_race_free : forall tr, wf tr -> respects accesses tr ->
   forall i j t1 t2 inst s1 s2,
